@@ -1,6 +1,6 @@
 """C04 - growth, pressure, division trigger, removal: contracts on the cell-cycle functions."""
 import z3
-from spec import Contract, V3
+from spec import Contract, V3, LoopContract
 from values import Ptr
 
 PROP = 'C04'
@@ -75,6 +75,96 @@ def post_clear(C):
                                n.len(n.sub(C.this, 'cell.node_lst_')) == 0, n.len(n.sub(C.this, 'cell.face_lst_')) == 0))]
 
 
+# ---- V3: order inside apply_internal_forces ------------------------------------------------------------------------
+def havoc_contract(qname, name=None, **kw):
+    """callee treated as 'may write anything reachable, returns anything': sound without trusting the callee"""
+    return Contract(qname, PROP, frame=lambda C: [('*', None)], name=name or qname, **kw)
+
+
+def pure_contract(qname, ghost=None):
+    def rm(C, st):
+        v = C.e.fresh('ret.' + qname.split('::')[-1], R)
+        if ghost: st.ghost[ghost] = v
+        return v
+    return Contract(qname, PROP, frame=lambda C: [], ret_model=rm, assumed=True)
+
+
+def record_pressure(C, st):
+    st.ghost['pressure_at_force_call'] = C.old.f(C.this, 'cell.pressure_')
+    st.ghost['force_calls'] = st.ghost.get('force_calls', z3.IntVal(0)) + 1
+
+
+def post_order(C):
+    o = C.old; g = C.post_state.ghost
+    ct = ctype(C, o)
+    dt = C.val('time_step')
+    vt = o.f(C.this, 'cell.target_volume_') + dt * o.f(C.this, 'cell.growth_rate_')
+    vmin = o.f(ct, 'cell_type_parameters.min_vol_')
+    vt1 = z3.If(vt < vmin, vmin, vt)
+    K = o.f(ct, 'cell_type_parameters.bulk_modulus_'); pmax = o.f(ct, 'cell_type_parameters.max_pressure_')
+    if 'V_mesh' not in g or 'pressure_at_force_call' not in g:
+        return [('volume-then-growth-then-pressure-then-forces', z3.BoolVal(False))]
+    p0 = -K * LOG(g['V_mesh'] / vt1)
+    return [('volume-then-growth-then-pressure-then-forces', g['pressure_at_force_call'] == z3.If(p0 > pmax, pmax, p0)),
+            ('pressure-forces-applied-once', g['force_calls'] == 1)]
+
+
+# ---- V6: removal of cells below the minimum volume ----------------------------------------------------------------
+def pre_lambda(C):
+    return [('cell-non-null', C.val('c').ref > 0)]
+
+
+def post_removal_pred(C):
+    o, n = C.old, C.new
+    c = C.val('c').ref
+    below = o.f(c, 'cell.volume_') < o.f(o.f(c, 'cell.cell_type_'), 'cell_type_parameters.min_vol_')
+    return [('removed-iff-below-min', C.ret == below),
+            ('removed-cells-are-cleared', z3.Implies(below, z3.And(n.f(c, 'cell.volume_') == 0, n.len(n.sub(c, 'cell.node_lst_')) == 0, n.len(n.sub(c, 'cell.face_lst_')) == 0))),
+            ('kept-cells-untouched', z3.Implies(z3.Not(below), z3.And(n.f(c, 'cell.volume_') == o.f(c, 'cell.volume_'), n.f(c, 'cell.target_volume_') == o.f(c, 'cell.target_volume_'),
+                                                                   n.len(n.sub(c, 'cell.node_lst_')) == o.len(o.sub(c, 'cell.node_lst_')))))]
+
+
+def pre_removal_pred(C):
+    # the volume of a cell is |signed volume|/6 >= 0 (postcondition of cell::compute_volume, C12)
+    o = C.old
+    c = C.val('c').ref
+    return pre_lambda(C) + [('volume-nonneg', o.f(c, 'cell.volume_') >= 0)]
+
+
+def mark_integrated(C, st):
+    st.ghost['integrated'] = st.ghost.get('integrated', z3.IntVal(0)) + 1
+    st.ghost['removals_before_integration'] = st.ghost.get('removal_count', z3.IntVal(0))
+
+
+def post_iteration(C):
+    g = C.post_state.ghost
+    n = C.new
+    if C.outcome != 'ret': return []
+    lst = n.sub(C.this, 'solver.cell_lst_')
+    cnt = g.get('removal_count', z3.IntVal(0))
+    out = [('removal-runs-once-per-iteration', cnt == 1)]
+    if 'removal_len_after' in g:
+        out += [('removal-covers-whole-population', z3.And(g['removal_full_range'], g['removal_vec'] == lst)),
+                ('removal-is-after-integration', z3.And(g.get('integrated', z3.IntVal(0)) == 1, g.get('removals_before_integration', z3.IntVal(-1)) == 0)),
+                ('no-cell-reinserted-after-removal', z3.And(n.len(lst) == g['removal_len_after'], n.arr('vec.data.int')[lst] == g['removal_data_after']))]
+    return out
+
+
+# ---- V7: initial pressure (solver constructor, body of the loop over the population) -------------------------------
+EXP = z3.Function('exp', R, R)
+
+
+def post_initial_pressure(C):
+    o, n = C.old, C.new
+    st = C.pre_state
+    c = [v for k, v in C.post_state.env.items() if C.e.var_names.get(k) == 'c'][0].ref
+    ct = o.f(c, 'cell.cell_type_')
+    K = o.f(ct, 'cell_type_parameters.bulk_modulus_'); pmax = o.f(ct, 'cell_type_parameters.max_pressure_'); p_init = o.f(ct, 'cell_type_parameters.initial_pressure_')
+    V = o.f(c, 'cell.volume_')
+    return [('target-volume-from-initial-pressure', n.f(c, 'cell.target_volume_') == V * EXP(p_init / K)),
+            ('pressure-law-at-start', n.f(c, 'cell.pressure_') == z3.If(-K * LOG(V / (V * EXP(p_init / K))) > pmax, pmax, -K * LOG(V / (V * EXP(p_init / K)))))]
+
+
 def build(reg):
     reg.add(Contract('cell::update_target_volume', PROP, post=post_target_volume, assigns=['cell.target_volume_']))
     reg.add(Contract('cell::update_pressure', PROP, post=post_pressure, assigns=['cell.pressure_', 'cell.pressure_energy_']))
@@ -83,3 +173,22 @@ def build(reg):
     reg.add(Contract('cell::is_below_min_vol', PROP, post=post_below_min, assigns=[]))
     reg.add(Contract('cell::initialize_random_properties', PROP, pre=pre_random, post=post_random, assigns=['cell.growth_rate_', 'cell.division_volume_']))
     reg.add(Contract('cell::clear_data', PROP, post=post_clear))
+    # V3
+    forces = [havoc_contract(q) for q in ('cell::apply_surface_tension_and_membrane_elasticity', 'cell::apply_bending_forces',
+                                          'cell::regularize_all_face_angles', 'cell::compute_node_curvature_and_normals')]
+    reg.add(Contract('cell::apply_internal_forces', PROP, post=post_order, name='cell::apply_internal_forces(order)', use=[
+        Contract('cell::update_all_face_normals_and_areas', PROP, frame=lambda C: [('face.area_', None), ('face.normal_.dx_', None), ('face.normal_.dy_', None), ('face.normal_.dz_', None)], assumed=True),
+        pure_contract('cell::compute_area'), pure_contract('cell::compute_volume', ghost='V_mesh'),
+        Contract('cell::apply_pressure_on_surface', PROP, frame=lambda C: [('*', None)], on_call=record_pressure)] + forces))
+    # V6
+    reg.add(Contract('solver::run_iteration', PROP, pre=pre_removal_pred, post=post_removal_pred, lambda_ordinal=0,
+                     name='solver::run_iteration::<removal predicate>'))
+    hv = [havoc_contract(q) for q in ('solver::save_mesh', 'cell_divider::run', 'cell::update_face_types', 'local_mesh_refiner::refine_meshes',
+                                      'contact_model_abstract::run', 'cell::special_polarization_update', 'cell::apply_internal_forces',
+                                      'abstract_statistics_writer::write_data')]
+    hv.append(Contract('time_integration_scheme::update_nodes_positions', PROP, frame=lambda C: [('*', None)], on_call=mark_integrated))
+    reg.add(Contract('solver::run_iteration', PROP, post=post_iteration, use=hv, name='solver::run_iteration(removal)'))
+    for k in range(3):
+        reg.add_loop(LoopContract('solver::run_iteration', k, lambda L: [], modifies=['*']))
+    # V7
+    reg.add(Contract('solver::solver', PROP, post=post_initial_pressure, slice_loop=1, name='solver::solver::<initial pressure loop>'))
